@@ -210,7 +210,7 @@ fn gated(deep: &Deep, ty: &str, bytes: &[u8], out: &mut Out) -> Result<u64, Stri
             "RelayMessage" => {
                 if let Ok(msg) = packed::RelayMessageReader::from_compatible_slice(bytes) {
                     if let packed::RelayMessageUnionReader::CompactBlock(reader) = msg.to_enum() {
-                        if reader.count_extra_fields() > 1 {
+                        if reader.count_extra_fields() > 1 || !reader.check_data() {
                             stage.push("relay_compact_banned");
                         } else {
                             stage.push("relay_compact_processed");
@@ -407,7 +407,12 @@ fn stream_frames(rng: &mut Rng, out: &mut Out, thorough: bool) {
     const MAX: usize = 1 << 23;
     for i in 0..n {
         // a payload and its honest frame
-        let len = match rng.below(12) {
+        let len = match if i < 4 { 100 + i as u64 } else { rng.below(12) } {
+            // honest frames exactly at / one over the decompression limit (highly compressible)
+            100 => MAX as u64,
+            101 => MAX as u64 + 1,
+            102 => MAX as u64 - 1,
+            103 => 2 * MAX as u64,
             0 => 0,
             1 => 1023,
             2 => 1024,
@@ -416,7 +421,7 @@ fn stream_frames(rng: &mut Rng, out: &mut Out, thorough: bool) {
             5 => rng.range(100_000, 300_000),
             _ => rng.range(1, 2000),
         } as usize;
-        let compressible = rng.chance(1, 2);
+        let compressible = len >= MAX - 1 || rng.chance(1, 2);
         let payload: Vec<u8> = (0..len).map(|k| if compressible { (k / 7) as u8 } else { rng.below(256) as u8 }).collect();
         let honest = match silent(|| compress(Bytes::from(payload.clone()))) {
             Ok(f) => f.to_vec(),
@@ -492,7 +497,11 @@ fn stream_frames(rng: &mut Rng, out: &mut Out, thorough: bool) {
                     out.violation("decompress returned more than the declared bound", json!({"frame_len": frame.len(), "out_len": o.len(), "how": how}), None);
                 }
             }
-            if how == "honest" && res.as_deref() != Some(&payload[..]) {
+            if how == "honest" && len > MAX {
+                if res.is_some() {
+                    out.violation("decompress accepted a frame that declares more than MAX_UNCOMPRESSED_LEN bytes", json!({"payload_len": len, "frame_len": frame.len()}), None);
+                }
+            } else if how == "honest" && res.as_deref() != Some(&payload[..]) {
                 out.violation("decompress(compress(x)) != x", json!({"payload_len": len, "frame_prefix": hex(&frame[..std::cmp::min(64, frame.len())])}), None);
             }
             if how == "declared-length-at-limit" {
